@@ -127,7 +127,16 @@ func runC01(r *Report, tier string) {
 		}
 		got := canon(projectField(canon(wire), "Protected"))
 		_, ok := unify(pProt(pField(T0(), "Headers")), got, bindings{})
-		o.check(ok, "ProtBytes($0.Headers) on both sides (R02.1 gives the signing side)", "encoder emits "+truncate(got.String(), 200))
+		why = "encoder emits " + truncate(got.String(), 200)
+		if ok {
+			// the same selection among raw bytes / encoded map as the bucket
+			// marshaler the ToBeSigned builders call
+			exp := canon(P.terms.expand(&Term{Op: "res", S: "0", Args: []*Term{{Op: "call", S: "(*Headers).MarshalProtected", Args: []*Term{pField(T0(), "Headers")}}}}, 8))
+			if eq, w := gateEquiv(exp, got); !eq {
+				ok, why = false, "the emitted protected bytes are not selected as the signed ones are: "+w
+			}
+		}
+		o.check(ok, "ProtBytes($0.Headers) on both sides (R02.1 gives the signing side)", why)
 	}
 	// the decoder must accept what the encoder can emit: limits not narrowed
 	checkDecoderLimits(r, "R07.3")
